@@ -137,6 +137,11 @@ def _success_branch(F, d):
     return var in ('Continue', 'Some', 'Ok')
 
 
+def field_path_any(v, name):
+    """some projection on the way from v to its root is the field `name`"""
+    return mentions(v, lambda x: (x[0] == 'field' and x[2] == name) or (x[0] == 'ref' and any(e == ('f', name) for e in x[1][1])))
+
+
 def tuple_slots(chk, F, rule, cfg):
     fns = [f for f in F.fns.values() if re.search(r'output::deep::tuples::tup\d', f.defp) and f.kind == 'assoc']
     chk.floor(rule, 'tuple conversion functions', len(fns), 12, config=cfg)
@@ -185,7 +190,8 @@ def leaves(chk, F, rule, cfg):
     own = F.method('output::owning::Owned', 'output', 'output::GetOutput')
     for p in symex.Interp(F).run(own):
         r = strip(p.outcome[1])
-        ok = is_call(r, r'core::ops::Fn::call$') and mentions(r, lambda x: x[0] == 'ref' and x[1][0][0] == 'ptr')
+        # `(*self.0)()` (the dyn Fn) or `(self.0)()` (through Box's Fn impl): either way the stored closure, called with no arguments
+        ok = is_call(r, r'core::ops::Fn(<Args>)?>?::call$') and r[2] and mentions(r[2][0], lambda x: x == ('param', 0, 1)) and field_path_any(r[2][0], '0')
         chk.ob(rule, 'an owned leaf is whatever the stored closure yields (single-use take or clone, see R12.2)', ok, config=cfg, fn=own, site='owned', what='Owned::output %s' % show(r)[:100], found=show(r)[:200])
     ml = F.method('output::mut_lending::MutLent', 'output', 'output::GetOutput')
     for p in symex.Interp(F).run(ml):
